@@ -480,6 +480,14 @@ class Interp:
         if isinstance(st, ast.Expr):
             if isinstance(st.value, ast.Constant):
                 return
+            if isinstance(st.value, ast.Call):
+                # a discarded call on something imported from outside the analysed packages (logging,
+                # warnings, ...) cannot change what the decision function returns; assumed not to raise
+                root = st.value.func
+                while isinstance(root, (ast.Attribute, ast.Call, ast.Subscript)):
+                    root = root.func if isinstance(root, ast.Call) else root.value
+                if isinstance(root, ast.Name) and root.id not in env and root.id in self.m.imports and not isinstance(self.repo.resolve_name(self.m, root.id), (ClassInfo, FuncInfo)):
+                    return
             self.eval(st.value, env)
             return
         if isinstance(st, ast.Assign):
